@@ -475,6 +475,70 @@ Proof.
   exact (proj1 (on_disk_sized_chain _ _ _ _ _ 0 Hc Hf Hz (N.le_refl 0))).
 Qed.
 
+(* ------------------------------------------------------------------ inside the volume; offset-write inside *)
+(* the end of the volume as laid out: the end of its last structure *)
+Definition layout_end (d : list (N * N)) : N := let p := last d (0, 0) in fst p + snd p.
+
+Lemma sorted_inside_volume : forall d, StronglySorted before d -> Forall (fun p => fst p + snd p <= layout_end d) d.
+Proof.
+  induction d as [|a l IH]; intro H; [constructor|].
+  inversion H as [|x xs Hs Hf]; subst. specialize (IH Hs).
+  destruct l as [|b l'].
+  - constructor; [unfold layout_end; cbn; lia | constructor].
+  - assert (E : layout_end (a :: b :: l') = layout_end (b :: l')) by reflexivity.
+    rewrite E. constructor; [|exact IH].
+    assert (Hin : In (last (b :: l') (0, 0)) (b :: l')).
+    { clear. revert b. induction l' as [|c r IHr]; intro b; [left; reflexivity|].
+      right. exact (IHr c). }
+    rewrite Forall_forall in Hf. specialize (Hf _ Hin). unfold before in Hf. unfold layout_end. lia.
+Qed.
+
+Theorem accepted_inside_volume : forall (v : raw_volume) (l : list structure),
+  accept v = Some l -> Forall fits (on_disk l) ->
+  Forall (fun p => fst p + snd p <= layout_end (on_disk l)) (on_disk l) /\ layout_end (on_disk l) < W \/ on_disk l = [].
+Proof.
+  intros v l H Hf. destruct (on_disk l) as [|a d] eqn:E; [right; reflexivity|]. left.
+  split; [rewrite <- E; apply sorted_inside_volume; eapply accepted_disjoint; eauto; rewrite E; exact Hf|].
+  assert (Hin : In (last (a :: d) (0, 0)) (a :: d)).
+  { clear. revert a. induction d as [|c r IHr]; intro a; [left; reflexivity|]. right. exact (IHr c). }
+  rewrite Forall_forall in Hf. specialize (Hf _ Hin). exact Hf.
+Qed.
+
+(* every offset-write of an accepted volume passed validateOffsetWrite against the first structure and the volume min size *)
+Lemma validate_cross_ow : forall f vs l prev, validate_cross_from f vs prev l = true ->
+  Forall (fun s => validate_ow s f vs = true) l.
+Proof.
+  intros f vs l. induction l as [|s r IH]; intros prev H; [constructor|].
+  cbn [validate_cross_from] in H. apply andb_prop in H. destruct H as [H1 H2].
+  apply andb_prop in H1. destruct H1 as [_ How].
+  constructor; [exact How|].
+  destruct (s_offset s) as [o|].
+  - apply andb_prop in H2. destruct H2 as [_ H2]. eapply IH; eauto.
+  - eapply IH; eauto.
+Qed.
+
+(* spelled out: a pointer of 4 bytes written at off lies inside the min-size of the first structure, which is at offset 0
+   (relative form, naming the first structure), or inside the minimal volume (absolute form) *)
+Definition ow_inside (first : structure) (vol_size : N) (s : structure) : Prop :=
+  match s_ow s with
+  | None => True
+  | Some (Some rel, off) => rel = s_idx first /\ s_offset first = Some 0 /\ (off + 4) mod W <= s_min first
+  | Some (None, off) => (off + 4) mod W <= vol_size
+  end.
+
+Theorem accepted_offset_write_inside : forall (v : raw_volume) (l : list structure) (first : structure) (r : list structure),
+  accept v = Some l -> l = first :: r -> Forall (ow_inside first (vol_min_size l)) l.
+Proof.
+  intros v l first r H E. destruct (accept_valid _ _ H) as [_ Hc]. subst l.
+  unfold validate_cross in Hc. pose proof (validate_cross_ow _ _ _ _ Hc) as Hall.
+  eapply Forall_impl; [|exact Hall]. intros s Hs. unfold validate_ow in Hs. unfold ow_inside.
+  destruct (s_ow s) as [[[rel|] off]|]; [| |exact I].
+  - apply andb_prop in Hs. destruct Hs as [Hs H3]. apply andb_prop in Hs. destruct Hs as [H1 H2].
+    split; [lia|]. split; [destruct (s_offset first) as [[|o]|]; try discriminate; reflexivity|].
+    unfold add64, lba48 in H3. lia.
+  - unfold add64, lba48 in Hs. lia.
+Qed.
+
 (* ------------------------------------------------------------------ statements as used by props/C38.v *)
 Lemma accepted_disjoint_increasing : forall (v : raw_volume) (l : list structure),
   accept v = Some l -> Forall fits (on_disk l) ->
@@ -508,3 +572,12 @@ Proof. exists wrap_witness. exact wrap_witness_accepted_overlapping. Qed.
 Lemma parse_wrap_refuted : exists q : qty, exists n : N,
   (0 <= q_num q)%Z /\ parse_qty q = Some n /\ Z.of_N n <> qty_value q.
 Proof. exists (Q 17179869185 UG), 1073741824. split; [discriminate|]. split; [exact (proj1 parse_wrap_witness)|]. discriminate. Qed.
+
+Lemma accepted_inside_volume' : forall (v : raw_volume) (l : list structure),
+  accept v = Some l -> Forall fits (on_disk l) ->
+  Forall (fun p => fst p + snd p <= layout_end (on_disk l)) (on_disk l) /\ (on_disk l <> [] -> layout_end (on_disk l) < W).
+Proof.
+  intros v l H Hf. destruct (accepted_inside_volume v l H Hf) as [[A B]|E].
+  - split; [exact A | intros _; exact B].
+  - rewrite E. split; [constructor | intro C; contradiction].
+Qed.
